@@ -17,6 +17,7 @@ import selectors
 import struct
 import types
 
+MIN_TICK = 1e-6
 EPS = 1e-7   # strict FIFO: equal deadlines in the timer heap are not ordered
 OWNER: contextvars.ContextVar = contextvars.ContextVar("vf_owner", default=None)
 
@@ -41,6 +42,7 @@ class VSelector(selectors.BaseSelector):
         self._keys = {}
         self.max_time = None
         self.abort = None
+        self.loop = None
 
     def register(self, fileobj, events, data=None):
         key = selectors.SelectorKey(fileobj, fileobj if isinstance(fileobj, int) else fileobj.fileno(), events, data)
@@ -58,7 +60,12 @@ class VSelector(selectors.BaseSelector):
         if timeout is None:
             raise SimDeadlock("nothing scheduled: every task waits for something that cannot happen")
         if timeout > 0:
-            self._clock.now += timeout
+            # jump exactly to the earliest timer (no float drift from adding differences)
+            sched = self.loop._scheduled if self.loop is not None else None
+            if sched:
+                self._clock.now = max(self._clock.now, sched[0]._when)
+            else:
+                self._clock.now += timeout
             if self.max_time is not None and self._clock.now > self.max_time:
                 raise SimBudgetExceeded(f"virtual time budget exceeded at {self._clock.now}")
         return []
@@ -116,6 +123,7 @@ class SimLoop(asyncio.SelectorEventLoop):
         self.clock = clock or VClock()
         self._vsel = VSelector(self.clock)
         super().__init__(selector=self._vsel)
+        self._vsel.loop = self
         self.net = net
         if net is not None:
             net.loop = self
@@ -174,6 +182,9 @@ class SimLoop(asyncio.SelectorEventLoop):
         return t
 
     def call_at(self, when, callback, *args, context=None):
+        # real timers have a granularity: without a minimal tick a "retry in 1e-17 s" loop (e.g. the linger
+        # wake-up computed from float differences) would spin forever at a frozen virtual instant
+        when = max(when, self.clock.now + MIN_TICK)
         h = super().call_at(when, self._fire_timer, callback, args, context=context)
         self.timers.append((h, OWNER.get(), callback))
         if len(self.timers) > 8192:
